@@ -1,5 +1,30 @@
 add("C13", "checks/c13_lexer.c", ["default-plain", "default-asan"], ["default-plain", "default-asan"],
-    "placeholder",
+    "a case is a block of 4096 consecutive strings (enum-class, enum-union), one (seed token, position) pair with all 256 byte values "
+    "substituted/inserted (bytesweep), or one generated input (long, random); every string is handed to the recogniser once per placement "
+    "(exact-size heap cell and end of a larger cell under ASan; inside a longer buffer with state.len cut at EVERY offset 0..L in both "
+    "flavours, the text continuing after the cut) and each such call is one evaluation: return value, token type, token offset, token "
+    "length, cursor displacement and buffer <= pos <= buffer+len are compared with kit/ref_lex.c. enum-class: ALL strings of length "
+    "<= 6 (quick) / 7 (thorough) [ASan build: 5 / 6] over the recogniser's class alphabet plus one foreign symbol (4-10 symbols) for the 14 "
+    "scpiLex_* recognisers; enum-union: ALL strings of length <= 5 / 6 [ASan: 4 / 5] over the 16 symbols ' ,;\\n:*?EH1.-#\"()' for "
+    "parseProgramData, parseAllProgramData and detectProgramMessageUnit; long: grammar-generated tokens/lists/units with 300..1000 digit, "
+    "character or byte bodies (8-bit and NUL bytes included), optionally truncated/corrupted; random: byte strings up to 32 bytes. "
+    "distinct_nontrivial counts distinct (recogniser, text) pairs at whose start the reference recognises a token (or an incomplete block / "
+    "a well-formed unit), on a 1/16 (enumerations), 1/4 (random), 1/1 (bytesweep, long) hash subsample, i.e. a lower bound. Not asserted, "
+    "only counted: token ptr of a rejected input, cursor/return of parseProgramData after a rejection beyond 'at the start or after the "
+    "leading white space', a string whose closing quote is followed by the same quote and never terminated (both readings accepted), a "
+    "list ending in a comma (rejected or the list before the comma), units without header or with an INCOMPLETE_* header, "
+    "numberOfParameters 0 vs -1 for header + white space only",
     extra_sources=["kit/ref_lex.c"],
     exhaustive=dict(quick=True, thorough=True),
-    technique="differential runtime monitor", level_text="x", level_note="x", assumptions=[])
+    technique="differential runtime monitor: the 17 recognisers of the real library against table-driven longest-match automata written from "
+              "IEEE 488.2 section 7 / DESIGN.md, bounded-exhaustive string enumeration with every end-of-input cut, tokens pre-filled with 0x5A, "
+              "exact-size heap cells under ASan+UBSan",
+    level_text="exploration by execution, bounded-exhaustive: every string up to the stated length over one representative per character "
+               "class (quick ~5.7e7, thorough ~1e9 recogniser calls), every byte value at every position of 38 seed tokens, plus ~4e5 generated "
+               "long and random inputs; longer inputs and other representatives of a class are sampled, not enumerated",
+    level_note="trusted: kit/ref_lex.c (edge lists of 11 small automata + block counter + composite rules, about 250 lines), the choice of class "
+               "representatives, the sanitizer runtimes; held means no disagreement on the inputs executed",
+    assumptions=["kit/ref_lex.c encodes the C13 grammar of DESIGN.md correctly (relaxed suffix, definite-length blocks only, flat expressions, "
+                 "doubled quote = inserted quote)",
+                 "one representative per character class is enough inside the enumeration; class boundaries are covered by the 256-value byte sweep",
+                 "recognisers are called directly with a token pre-filled with 0x5A bytes; gcc -O2 and clang -O1 ASan+UBSan builds of the working tree"])
